@@ -30,6 +30,13 @@ def use_repo():
         raise HarnessError(f"orquestra.quantum imported from {got}, expected {want}")
 
 
+def stable_pick(key, modulus, seed=0):
+    """Deterministic pseudo-random subsampling: True for ~1/modulus of keys, varies with seed."""
+    import zlib
+
+    return zlib.crc32(repr((key, seed)).encode()) % modulus == 0
+
+
 class HarnessError(Exception):
     pass
 
